@@ -194,9 +194,9 @@ def _linear_solver(kind, assemble, rhs=None, err=True):
         return om.ScipyKrylov(assemble_jac=assemble, maxiter=500, atol=1e-13, rtol=1e-14, restart=60,
                               err_on_non_converge=err, **kw)
     if kind == 'lbgs':
-        return om.LinearBlockGS(assemble_jac=assemble, maxiter=300, err_on_non_converge=err, **TIGHT)
+        return om.LinearBlockGS(assemble_jac=assemble, maxiter=300, err_on_non_converge=True, **TIGHT)
     if kind == 'lbjac':
-        return om.LinearBlockJac(assemble_jac=assemble, maxiter=300, err_on_non_converge=err, **TIGHT)
+        return om.LinearBlockJac(assemble_jac=assemble, maxiter=300, err_on_non_converge=True, **TIGHT)
     if kind == 'runonce':
         return om.LinearRunOnce(assemble_jac=assemble)
     raise ValueError(kind)
